@@ -487,7 +487,11 @@ pub fn run_scenario(sc: &Scenario, rng: &mut Rng) -> RunRecord {
             }};
         }
 
+        // glue mode: between the Encryption Response and the next client frame nothing is awaited
+        let mut gluing = false;
         for act in sc.acts.iter() {
+            if gluing && matches!(act, Act::Sleep(_) | Act::SleepUntil(_) | Act::WaitServer { .. }) { continue; }
+            if matches!(act, Act::Frame { .. } | Act::Raw(_)) { gluing = false; }
             match act {
                 Act::Sleep(ms) => { let t = pipe.now_ms() + ms; advance_until!(t, false); }
                 Act::SleepUntil(t) => { let t = *t; if t > pipe.now_ms() { advance_until!(t, false); } }
@@ -502,7 +506,6 @@ pub fn run_scenario(sc: &Scenario, rng: &mut Rng) -> RunRecord {
                     push(&mut cs, &mut rec, &mut wire_in_len, b, None);
                     advance_until!(pipe.now_ms(), false);
                 }
-                Act::WaitServer { id } if sc.glue && *id == 2 => {}
                 Act::WaitServer { id } => {
                     let limit = pipe.now_ms() + 400_000;
                     let want = *id;
@@ -544,7 +547,7 @@ pub fn run_scenario(sc: &Scenario, rng: &mut Rng) -> RunRecord {
                         rec.enc_from_in_offset = Some(wire_in_len);
                         rec.enc_from_out_offset = Some(pipe.out_len());
                     }
-                    if !sc.glue { advance_until!(pipe.now_ms(), false); }
+                    if sc.glue { gluing = true; } else { advance_until!(pipe.now_ms(), false); }
                 }
                 Act::SetKa(p) => { cs.ka = p.clone(); }
                 Act::Eof => {
